@@ -186,6 +186,9 @@ class C13(Prop):
     )
     probes = ('reach',)
     probed_every = 10
+    # safety net only: under the line-level reach monitor of the probed pass a
+    # long document of the thorough tier can take more than the default 30 s
+    case_alarm = 300
     reach_required = ['category.categorize', 'utils.Token.__add__', 'utils.Token.__radd__', 'utils.Token.__getitem__', 'utils.Token.lstrip', 'utils.Token.rstrip', 'utils.CharToLineOffset.__call__', 'data.TexNode.search_regex', 'data.TexNode.char_pos_to_line']
     min_nontrivial = 1000
     budget_s = {'quick': 240, 'thorough': 3000}
